@@ -191,6 +191,9 @@ func (u *Universe) setDyn(s *Schema, f *Field, fd protoreflect.FieldDescriptor, 
 				if e.T == 'm' {
 					l.Append(protoreflect.ValueOfMessage(dynamicpb.NewMessage(fd.Message())))
 				}
+				if e.T == 'e' {
+					l.Append(pv) // an element is an element, even with no content
+				}
 				continue
 			}
 			l.Append(pv)
